@@ -101,7 +101,7 @@ Theorem comparisons_src : forall (addr : option id -> Z), (forall p q, addr p = 
     ceval (c_eq gen_cmp) (addr (handle_ptr s a)) (addr (handle_ptr s b)) = handle_eq s a b /\
     ceval (c_ne gen_cmp) (addr (handle_ptr s a)) (addr (handle_ptr s b)) = handle_ne s a b /\
     ceval (c_lt gen_cmp) (addr (handle_ptr s a)) (addr (handle_ptr s b)) = (addr (handle_ptr s a) <? addr (handle_ptr s b)) /\
-    a_bool gen_cmp = true /\ a_arrow gen_cmp = true /\ a_deref gen_cmp = true.
+    a_bool gen_cmp = true /\ a_arrow gen_cmp = true /\ a_deref gen_cmp = true /\ c_mixed gen_cmp = true.
 Proof. exact (cmp_model gen_cmp cmp_facts_lemma). Qed.
 Print Assumptions comparisons_src.
 
@@ -127,3 +127,9 @@ Theorem machine_src_uses_selected_members : forall n l,
   run_s gen_sel gen_table n l = run_t gen_table n l.
 Proof. exact (fun n l => run_s_eq gen_sel gen_table n l sel_lemma). Qed.
 Print Assumptions machine_src_uses_selected_members.
+
+(* the free functions / operator templates / aliases declared next to the classes are exactly the
+   ones the model knows, with their template parameter counts and operand types *)
+Theorem free_functions_closed : free_ok gen_free = true.
+Proof. exact free_lemma. Qed.
+Print Assumptions free_functions_closed.
